@@ -113,3 +113,47 @@ c04_frechet!(c04_frechet_f64, f64);
 //@ funcs: Frechet::<f32>::new
 //@ bounds: every triple of f32 bit patterns
 c04_frechet!(c04_frechet_f32, f32);
+
+// ---- C07 ----------------------------------------------------------------------------------------
+macro_rules! c07_frechet {
+    ($name:ident, $f:ty, $oc:ident) => {
+        vproof_free! {
+            fn $name() {
+                let mut rng = SymRng::new(1);
+                let w0 = rng.words[0];
+                let loc: $f = kani::any();
+                let scale: $f = kani::any();
+                // shape from a few concrete values: the reciprocal is then a constant the solver can compare
+                let sel: u8 = kani::any();
+                let (shape, neg_inv): ($f, $f) = match sel & 3 { 0 => (2.0, -0.5), 1 => (0.25, -4.0), 2 => (1.0, -1.0), _ => (8.0, -0.125) };
+                let d = match Frechet::<$f>::new(loc, scale, shape) { Ok(d) => d, Err(_) => return };
+                let x: $f = d.sample(&mut rng);
+                vassert!(rng.pos == 1, "Frechet: number of words consumed depends on the parameters");
+                vassert!(flog_n() == 2, "Frechet: expected one logarithm and one power");
+                let (a0, _, r0) = flog_get(0);
+                let (b, e, g) = flog_get(1);
+                vassert!(a0 == $oc(w0) as f64, "Frechet: logarithm is not taken of the OpenClosed01 draw");
+                vassert!(biteq64(b, -r0), "Frechet: base of the power is not -ln(u)");
+                vassert!(e == neg_inv as f64, "Frechet: exponent is not -1/shape");
+                vassert!(biteq64(x as f64, (loc + scale * (g as $f)) as f64), "Frechet: sample is not location + scale * g");
+                kani::cover!(g == 2.0, "g = 2");
+            }
+        }
+    };
+}
+//@ id: c07_frechet_f64
+//@ prop: C07
+//@ tier: quick
+//@ cap: 900
+//@ funcs: Frechet::<f64>::new; Frechet::<f64>::sample
+//@ bounds: every accepted (location, scale), shape in {1/4, 1, 2, 8}; every word; g = (-ln u)^(-1/shape) over the free-stub value set
+//@ assumes: libm::log, libm::pow replaced by free logging stubs (algebraic structure only)
+c07_frechet!(c07_frechet_f64, f64, oc01_64);
+//@ id: c07_frechet_f32
+//@ prop: C07
+//@ tier: quick
+//@ cap: 900
+//@ funcs: Frechet::<f32>::new; Frechet::<f32>::sample
+//@ bounds: as c07_frechet_f64
+//@ assumes: libm::logf, libm::powf replaced by free logging stubs
+c07_frechet!(c07_frechet_f32, f32, oc01_32);
